@@ -41,6 +41,9 @@ NewCase(e) ==
 
 Pfx(prop, S) == {prop \o "." \o c : c \in S}
 Cl(cond, name) == IF cond THEN {name} ELSE {}
+\* the verdict list is bounded, but per clause set: a flood of one kind of failure (a recorded finding, say) never crowds
+\* out a failure of another kind
+Full(fl, bad) == Len(fl) >= 6000 \/ Cardinality({i \in DOMAIN fl : fl[i].clauses = bad}) >= 400
 
 HLPath(raw) == IF raw = <<>> THEN <<>> ELSE Split(raw)
 
@@ -312,7 +315,15 @@ HostileClauses(c, begin, e, stats) ==
       after == e.after
       late == {i \in DOMAIN stats : i >= firstBad /\ CleanInside(stats[i].raw)
                                     /\ ~\E j \in 1..(firstBad - 1) : stats[j].p = stats[i].p}
-  IN Cl(begin.outsideBefore # e.outsideAfter \/ ("dstRootGone" \in DOMAIN e /\ e.dstRootGone), "C03.outsideTouched")
+      \* explanation test for a recorded finding: the receiver's own Filter rejected a directory of the stream whose path
+      \* holds a symlink in the destination (so the link stayed), and an accepted entry of the stream lies below it
+      rej == IF "rejectedPaths" \in DOMAIN begin THEN {begin.rejectedPaths[k] : k \in DOMAIN begin.rejectedPaths} ELSE {}
+      belowRejectedLink == \E i \in DOMAIN stats : /\ CleanInside(stats[i].raw) /\ stats[i].p \notin rej
+                                                    /\ \E a \in rej : /\ Len(a) < Len(stats[i].p) /\ SubSeq(stats[i].p, 1, Len(a)) = a
+                                                                      /\ Has(before, a) /\ At(before, a).t = "symlink"
+  IN (IF begin.outsideBefore # e.outsideAfter \/ ("dstRootGone" \in DOMAIN e /\ e.dstRootGone)
+      THEN (IF belowRejectedLink THEN {"C03.outsideTouched/explainedByEntryBelowRejectedDirectory"} ELSE {"C03.outsideTouched"})
+      ELSE {})
      \cup Cl((firstBad # 0 \/ c.rMustFail) /\ c.retR = "ok", "C03.invalidStreamAccepted")
      \* "applied" = the entry exists afterwards as a new or replaced inode.  A stale destination
      \* entry of that name that disappears is the (legitimate) effect of the valid prefix.
@@ -371,7 +382,7 @@ EndClauses(c, e) ==
              \cup {"C08.outcomeDependsOnSchedule"} ELSE {})
   \cup (IF "hostile" \in DOMAIN begin /\ c.realR THEN HostileClauses(c, begin, e, stats) ELSE {})
   \cup (IF "filtered" \in DOMAIN begin THEN FilteredClauses(c, begin, evs, stats) ELSE {})
-  \cup (IF c.metaOnly /\ c.realR THEN MetaClauses(c, begin, e, stats, view, notes) ELSE {})
+  \cup (IF c.metaOnly /\ c.realR /\ "selected" \in DOMAIN begin /\ "listing" \in DOMAIN e THEN MetaClauses(c, begin, e, stats, view, notes) ELSE {})
   \cup Cl(c.retS = "none" \/ c.retR = "none", "C04.callDidNotReturn")
   \* the harness's own snapshot of an on-disk, unfiltered source: device numbers arrive as they are on disk (the view
   \* the STATs describe is the sender's reading of them)
@@ -451,7 +462,7 @@ Step == /\ l <= Len(Trace)
         /\ LET e == Trace[l]
                r == Consume(cs, e)
            IN /\ cs' = r[1]
-              /\ failed' = IF r[2] = {} \/ Len(failed) >= 2000 THEN failed
+              /\ failed' = IF r[2] = {} \/ Full(failed, r[2]) THEN failed
                            ELSE Append(failed, [case |-> e.case, line |-> l, clauses |-> r[2],
                                                 detail |-> IF e.ev = "End" /\ cs.active THEN EndDetail(cs, e) ELSE ""])
         /\ l' = l + 1
